@@ -57,8 +57,16 @@ def make_network(rng, sym, static, dtype, keep, pending):
         rng.shuffle(order)
         legs[t] = [legs[t][o] for o in order]
         idxs[t] = [idxs[t][o] for o in order]
-        tens.append(gen.rand_array(rng, sym, indices=idxs[t], fermi=True, static=static, dtype=dtype, keep=keep,
-                                   pending=pending, label=labels[t], parity=rng.choice([0, 1, 1, None])))
+        if rng.random() < 0.35:
+            # a bra-type tensor: generated as the conjugate of an array over the conjugate legs,
+            # so that its label is a dual (creation-type) one
+            y = gen.rand_array(rng, sym, indices=[ix.conj() for ix in idxs[t]], fermi=True, static=static,
+                               dtype=dtype, keep=keep, pending=pending, label=labels[t],
+                               parity=rng.choice([0, 1, 1, None]))
+            tens.append(y.conj())
+        else:
+            tens.append(gen.rand_array(rng, sym, indices=idxs[t], fermi=True, static=static, dtype=dtype, keep=keep,
+                                       pending=pending, label=labels[t], parity=rng.choice([0, 1, 1, None])))
     return shape, tens, legs
 
 
